@@ -8,4 +8,5 @@ MODULES = [
     "nameditemlist",
     "odxlink",
     "compu",
+    "hierarchy",
 ]
